@@ -88,6 +88,7 @@ func vh16Do(dir File, o vh16Op, issued, answered *int64) int {
 	walk := func(from File, names ...string) (File, error) {
 		var f File
 		err := call(func() (e error) { _, f, e = from.Walk(names); return })
+		vhgDefuse(f)
 		return f, err
 	}
 	base, err := walk(dir)
@@ -229,7 +230,7 @@ func vh16Run(ops [][]vh16Op, nconn, shared int, only int, keepLog bool) (replies
 	}
 	roots := make([]File, nconn)
 	for i := range roots {
-		if roots[i], err = env.clients[i].Attach(""); err != nil {
+		if roots[i], err = vhgAttach(env.clients[i]); err != nil {
 			return nil, 0, 0, false, nil, err
 		}
 	}
@@ -248,6 +249,7 @@ func vh16Run(ops [][]vh16Op, nconn, shared int, only int, keepLog bool) (replies
 			}
 			atomic.AddInt64(&issued, 1)
 			_, dir, err := roots[c%nconn].Walk([]string{dirName})
+			vhgDefuse(dir)
 			atomic.AddInt64(&answered, 1)
 			if err != nil {
 				replies[c] = []int{-2}
@@ -364,15 +366,17 @@ func TestVerifC16Stall(t *testing.T) {
 		if err != nil {
 			t.Fatal(err)
 		}
-		root, err := env.clients[0].Attach("")
+		root, err := vhgAttach(env.clients[0])
 		if err != nil {
 			t.Fatal(err)
 		}
 		_, f1, err := root.Walk([]string{"c0", "a"})
+		vhgDefuse(f1)
 		if err != nil {
 			t.Fatal(err)
 		}
 		_, f2, err := root.Walk([]string{"c0", "sub"})
+		vhgDefuse(f2)
 		if err != nil {
 			t.Fatal(err)
 		}
@@ -410,21 +414,24 @@ func TestVerifC16RenameDisconnect(t *testing.T) {
 	if err != nil {
 		t.Fatal(err)
 	}
-	r0, err := env.clients[0].Attach("")
+	r0, err := vhgAttach(env.clients[0])
 	if err != nil {
 		t.Fatal(err)
 	}
-	r1, err := env.clients[1].Attach("")
+	r1, err := vhgAttach(env.clients[1])
 	if err != nil {
 		t.Fatal(err)
 	}
 	_, dir, err := r0.Walk([]string{"c0"})
+	vhgDefuse(dir)
 	if err != nil {
 		t.Fatal(err)
 	}
-	if _, _, err := r1.Walk([]string{"c0", "a"}); err != nil { // the fid that will vanish with connection 1
+	_, vanishing, err := r1.Walk([]string{"c0", "a"}) // the fid that will vanish with connection 1
+	if err != nil {
 		t.Fatal(err)
 	}
+	vhgDefuse(vanishing)
 	g := fs.arm("Renamed", "/c0/a", 0)
 	done := make(chan struct{})
 	go func() { dir.RenameAt("a", dir, "z"); close(done) }()
@@ -480,10 +487,13 @@ func TestVerifC16Probes(t *testing.T) {
 		if err != nil {
 			t.Fatal(err)
 		}
-		root, _ := env.clients[0].Attach("")
+		root, _ := vhgAttach(env.clients[0])
 		_, d1, err1 := root.Walk([]string{"c0"})
+		vhgDefuse(d1)
 		_, d2, err2 := root.Walk([]string{"c0"})
-		_, _, err3 := root.Walk([]string{"c0", "a"})
+		vhgDefuse(d2)
+		_, held3, err3 := root.Walk([]string{"c0", "a"}) // a live fid on the entry being renamed
+		vhgDefuse(held3)
 		if err1 != nil || err2 != nil || err3 != nil {
 			t.Fatal(err1, err2, err3)
 		}
@@ -503,10 +513,12 @@ func TestVerifC16Probes(t *testing.T) {
 			if err != nil {
 				t.Fatal(err)
 			}
-			r0, _ := env.clients[0].Attach("")
-			r1, _ := env.clients[1].Attach("")
+			r0, _ := vhgAttach(env.clients[0])
+			r1, _ := vhgAttach(env.clients[1])
 			_, f1, err1 := r0.Walk([]string{"c0", "a"})
+			vhgDefuse(f1)
 			_, f2, err2 := r1.Walk([]string{"c0", "a"})
+			vhgDefuse(f2)
 			if err1 != nil || err2 != nil {
 				t.Fatal(err1, err2)
 			}
@@ -536,9 +548,11 @@ func TestVerifC16Probes(t *testing.T) {
 		if err != nil {
 			t.Fatal(err)
 		}
-		root, _ := env.clients[0].Attach("")
+		root, _ := vhgAttach(env.clients[0])
 		_, dir, err1 := root.Walk([]string{"c0"})
+		vhgDefuse(dir)
 		_, f, err2 := root.Walk([]string{"c0", "a"})
+		vhgDefuse(f)
 		if err1 != nil || err2 != nil {
 			t.Fatal(err1, err2)
 		}
@@ -562,9 +576,11 @@ func TestVerifC16Probes(t *testing.T) {
 		if err != nil {
 			t.Fatal(err)
 		}
-		root, _ := env.clients[0].Attach("")
+		root, _ := vhgAttach(env.clients[0])
 		_, dir, err1 := root.Walk([]string{"c0"})
+		vhgDefuse(dir)
 		_, below, err2 := root.Walk([]string{"c0", "sub", "f"})
+		vhgDefuse(below)
 		if err1 != nil || err2 != nil {
 			t.Fatal(err1, err2)
 		}
@@ -601,14 +617,16 @@ func TestVerifC16Probes(t *testing.T) {
 		if err != nil {
 			t.Fatal(err)
 		}
-		r0, _ := env.clients[0].Attach("")
-		r1, _ := env.clients[1].Attach("")
+		r0, _ := vhgAttach(env.clients[0])
+		r1, _ := vhgAttach(env.clients[1])
 		_, dir, err1 := r0.Walk([]string{"c0"})
+		vhgDefuse(dir)
 		target := []string{"c0", "a"}
 		if dirRename {
 			target = []string{"c0", "sub", "f"}
 		}
 		_, victim, err2 := r1.Walk(target)
+		vhgDefuse(victim)
 		if err1 != nil || err2 != nil {
 			t.Fatal(err1, err2)
 		}
